@@ -423,6 +423,12 @@ void Avtp_Vss_SetVssPath(Avtp_Vss_t* pdu, VssPath_t* val)
 
 void Avtp_Vss_SetVssData(Avtp_Vss_t* pdu, VssData_t* val) {
 
+    // Reserved address modes have no path encoding and hence no place for the data
+    Vss_AddrMode_t addr_mode = Avtp_Vss_GetAddrMode(pdu);
+    if (addr_mode != VSS_INTEROP_MODE && addr_mode != VSS_STATIC_ID_MODE) {
+        return;
+    }
+
     // Get a pointer to the start of the VSS data
     uint8_t* vss_data_ptr = (uint8_t*) pdu + AVTP_VSS_FIXED_HEADER_LEN +
                                 Avtp_Vss_CalcVssPathLength(pdu);
